@@ -14,7 +14,7 @@ def decoder_vs_schema(res, env, tier):
     from specs.json_mutations import apply
     d = os.path.join(VERIF, "replays", "C17")
     os.makedirs(d, exist_ok=True)
-    probes = os.path.join(d, "decoder_probes.json")
+    probes = os.path.join(d, f"decoder_probes_{os.getpid()}.json")
     if os.path.exists(probes):
         os.remove(probes)
     env = dict(env, VERIF_C17_PROBES=probes, VERIF_TIER=tier)
@@ -23,6 +23,7 @@ def decoder_vs_schema(res, env, tier):
         res.errors.append("ground.c17_decoder did not run: " + (p.stdout + p.stderr)[-300:])
         return
     data = json.load(open(probes))
+    os.remove(probes)
     root = os.path.dirname(os.path.dirname(repo_src().rstrip("/")))       # <repo>/hugr-py/src -> <repo>
     if not os.path.isdir(os.path.join(root, "specification")):
         root = "/repo"          # a scratch copy of the sources only: the published files are the repository's
